@@ -1072,8 +1072,9 @@ impl TryFrom<&mut Peekable<Lexer>> for ParserNode {
                                 let Ok(next) = lex.peek_any() else {
                                     break;
                                 };
-                                if let TokenType::Newline = next.token_type() {
-                                    // consume newline
+                                if let TokenType::Newline | TokenType::Comment(_) = next.token_type() {
+                                    // consume newline (and a comment at the
+                                    // end of a line of values)
                                     lex.get_any()?;
                                 } else if let Ok(imm) = next.as_imm() {
                                     // try to get immediate
